@@ -11,7 +11,7 @@ from __future__ import annotations
 import ast
 from dataclasses import dataclass, field
 
-from . import ops, opsem, opspec, tmpl
+from . import gensem, ops, opsem, opspec, tmpl
 from .core import AnalysisError, Finding
 from .flow import Sym
 from .ops import PathRec
@@ -709,7 +709,7 @@ def delegation_checks(repo: Repo, rep: OpReport, rel: str, cls: str) -> str | No
     return a
 
 
-def analyse(repo: Repo, tier: str = "quick") -> OpReport:  # noqa: PLR0912, PLR0915
+def analyse(repo: Repo, tier: str = "quick", diff: bool = True) -> OpReport:  # noqa: PLR0912, PLR0915
     rep = OpReport()
     masks = ops.modifier_masks(repo)
 
@@ -759,15 +759,8 @@ def analyse(repo: Repo, tier: str = "quick") -> OpReport:  # noqa: PLR0912, PLR0
                     r0 = all_recs[len(all_recs) // 2]
                     rep.samples.append({"construct": r0.construct, "variant": r0.variant, "path": r0.trace_str(), "result": str(r0.result)})
 
-    # ---- both siblings evaluated against scripted children (E8)
-    units, results = opsem.check_operators(repo, "C01 DIFF", tier)
-    rep.count("diff_operators", units["operators"])
-    rep.count("diff_skeletons", units["skeletons"])
-    rep.count("diff_scripts", units["scripts"])
-    for con, label, n, bad in results:
-        rep.oblige({"C01"}, "DIFF", con, f"parse() and the emitted code agree on {n} scripted child/trivia outcomes ({label.split('::')[-1]})", True)
-        for cat, detail in bad:
-            rep.oblige({"C01"}, "DIFF", con, cat, False, Finding("DIFF", con, cat, f"{short(con)}: {cat}; e.g. {detail}", {"variant": label}))
+    if diff:
+        diff_checks(repo, rep, masks, tier)
     # ---- Rule
     analyse_rules(repo, rep, masks, tier)
     # ---- parse_trivia siblings
@@ -789,6 +782,29 @@ def analyse(repo: Repo, tier: str = "quick") -> OpReport:  # noqa: PLR0912, PLR0
         con = f"{cls}.parse/generate"
         rep.oblige({"C01", "C13"}, "FAIL-PARITY", con, sig, ok, Finding("FAIL-PARITY", con, sig, what, {"variant": variant}))
     return rep
+
+
+def diff_checks(repo: Repo, rep: OpReport, masks: dict, tier: str) -> None:
+    """C01 only: the two E8 differentials (they add nothing to the other properties' obligations)."""
+    # ---- both siblings evaluated against scripted children (E8)
+    units, results = opsem.check_operators(repo, "C01 DIFF", tier)
+    rep.count("diff_operators", units["operators"])
+    rep.count("diff_skeletons", units["skeletons"])
+    rep.count("diff_scripts", units["scripts"])
+    for con, label, n, bad in results:
+        rep.oblige({"C01"}, "DIFF", con, f"parse() and the emitted code agree on {n} scripted child/trivia outcomes ({label.split('::')[-1]})", True)
+        for cat, detail in bad:
+            rep.oblige({"C01"}, "DIFF", con, cat, False, Finding("DIFF", con, cat, f"{short(con)}: {cat}; e.g. {detail}", {"variant": label}))
+    # ---- Rule.parse against the code generate_rule() emits, on model rule tables (E8)
+    n, bad = gensem.check_gen(repo, "C01 GEN-DIFF", masks, tier == "thorough")
+    rep.count("gen_diff_scenarios", n)
+    con = f"{RULE_REL}::Rule.parse/generate_rule"
+    rep.oblige({"C01"}, "GEN-DIFF", con, f"Rule.parse and the generated rule closures agree on {n} model rule tables with scripted leaves", True)
+    cats: dict = {}
+    for cat, detail in bad:
+        cats.setdefault(cat, []).append(detail)
+    for cat, details in sorted(cats.items()):
+        rep.oblige({"C01"}, "GEN-DIFF", con, cat, False, Finding("GEN-DIFF", con, cat, f"{cat}: e.g. {details[0]} ({len(details)} of {n} model tables)", {"witness": details[0], "more": details[1:4]}))
 
 
 def shape_checks(rep: OpReport, recs: list[PathRec], cls: str) -> None:
